@@ -16,6 +16,7 @@ import (
 	"verifsim/core"
 	"verifsim/gen"
 	"verifsim/simschema"
+	"verifsim/simstream"
 )
 
 // C17 — schedsim: caller goroutines over the package's process-wide tables and over shared ASTs,
@@ -87,7 +88,7 @@ func (C17) Runs(tier string) uint64 {
 }
 
 var sharedOps = []string{"String", "Clone", "CloneExpr", "WalkFunc", "WalkNil", "Eval", "EvalBool", "EvalFields", "Reduce", "ReduceExpr", "RewriteFields", "ConditionExpr", "EvalType", "TypeValuerEval", "FieldDimensions", "ColumnNames", "FieldExprByName", "Names", "AliasNames", "Measurements", "RequiredPrivileges", "HasWildcard", "ExprNames", "HasTimeExpr", "TimeAscending", "ContainsVarRef", "IsSelector", "BinaryExprName", "Normalize"}
-var indepKinds = []string{"parse-query", "parse-stmt", "parse-expr", "print-own", "quote-string", "quote-ident", "needs-quotes", "format-duration", "parse-duration", "sanitize", "lookup", "language-clone", "own-settimerange", "own-rewrite"}
+var indepKinds = []string{"parse-query", "parse-stmt", "parse-expr", "print-own", "quote-string", "quote-ident", "needs-quotes", "format-duration", "parse-duration", "sanitize", "lookup", "language-clone", "own-settimerange", "own-rewrite", "parse-stream"}
 
 func genTaskOp(r *core.Rand, o gen.Opts, nShared int, pool int, hot *TaskOp) TaskOp {
 	if hot != nil && r.Chance(3, 4) {
@@ -115,6 +116,15 @@ func genTaskOp(r *core.Rand, o gen.Opts, nShared int, pool int, hot *TaskOp) Tas
 		}
 	case "parse-expr":
 		t.Text = core.RawStr(gen.Cond(r, o, 0))
+	case "parse-stream":
+		// a request body: a reader that is not a strings.Reader, delivering in chunks; sometimes a
+		// token soup (rejected inputs exercise the error paths of shared machinery)
+		if r.Chance(1, 3) {
+			t.Text = core.RawStr(Soup(r, r.Range(3, 14)) + " 'x" + salt + "' " + r.Pick([]string{"'bad\\q'", "\"" + salt + "\"", "region"}))
+		} else {
+			t.Text = core.RawStr(gen.Query(r, o) + r.Pick([]string{"", " GROUP BY region", ""}))
+		}
+		t.N = int64(r.Pick3(1, 7, 4096))
 	case "own-settimerange", "own-rewrite":
 		// in-place work on a statement no other task can see
 		t.Text = core.RawStr(gen.Select(r, o, 0))
@@ -228,6 +238,16 @@ func runTaskOp(op *TaskOp, ctx *opCtx, shared []*influxql.SelectStatement) strin
 			return "error: " + err.Error()
 		}
 		return s.String()
+	case "parse-stream":
+		chunk := int(op.N)
+		if chunk <= 0 {
+			chunk = 7
+		}
+		q, err := influxql.NewParser(simstream.New([]byte(op.Text), simstream.Plan{Cut: -1, Chunks: []int{chunk}})).ParseQuery()
+		if err != nil {
+			return "error: " + err.Error()
+		}
+		return q.String()
 	case "parse-expr":
 		e, err := influxql.ParseExpr(string(op.Text))
 		if err != nil {
